@@ -102,6 +102,20 @@ TauGen(a, b, i, j, ts, te, mtau, m, bounded) ==
             ELSE RMin(Clamp(h(mF1), h(mP1), q), Clamp(h(mP2), h(mF2), q))
    IN IF bounded /\ RLt(Zero, mtau) THEN RMin(w, mtau) ELSE w
 Tau(a, b, i, j, ts, te, mtau, m) == TauGen(a, b, i, j, ts, te, mtau, m, TRUE)
+\* get_tau as the code computes it (python_backend.py:324-368, cython_get_tau.pyx): 0-based
+\* indices ii, jj >= 0; the callers pass true_max = MissingLen; dev = TRUE is the code before the
+\* fix of finding F1 (no upper bound).
+TauCodeGen(a, b, ii, jj, ts, te, mtau, m, dev) ==
+   LET L == MissingLen(ts, te, mtau)
+       mF1 == IF ii < Len(a)-1 THEN RI(a[ii+2]-a[ii+1]) ELSE L
+       mP1 == IF ii > 0 THEN RI(a[ii+1]-a[ii]) ELSE L
+       mF2 == IF jj < Len(b)-1 THEN RI(b[jj+2]-b[jj+1]) ELSE L
+       mP2 == IF jj > 0 THEN RI(b[jj+1]-b[jj]) ELSE L
+       h(x) == RDiv(x, RI(2))
+       q == RDiv(m, RI(4))
+       w == IF a[ii+1] <= b[jj+1] THEN RMin(Clamp(h(mP1), h(mF1), q), Clamp(h(mF2), h(mP2), q))
+            ELSE RMin(Clamp(h(mF1), h(mP1), q), Clamp(h(mP2), h(mF2), q))
+   IN IF dev THEN w ELSE RMin(w, h(L))
 \* the set of coincident index pairs: a PAIRWISE definition over all index pairs
 Coinc(a, b, ts, te, mtau, m) ==
    {pr \in (1..Len(a)) \X (1..Len(b)) :
@@ -110,9 +124,8 @@ IdxOf(s, t) == CHOOSE k \in 1..Len(s) : s[k] = t
 EventTimes(a, b) == SortedSeq(SpikesIn(a) \cup SpikesIn(b))
 \* frame a sequence of interior entries by the two edge entries (which never count)
 Frame(seq, dflt) == IF Len(seq) = 0 THEN <<dflt, dflt>> ELSE <<seq[1]>> \o seq \o <<seq[Len(seq)]>>
-SyncDef(a, b, ts, te, mtau, m) ==
-   LET P == Coinc(a, b, ts, te, mtau, m)
-       T == EventTimes(a, b)
+SyncDefP(a, b, ts, te, P) ==
+   LET T == EventTimes(a, b)
        cv(t) == IF t \in SpikesIn(a) /\ t \in SpikesIn(b) THEN 2
                 ELSE IF t \in SpikesIn(a) THEN (IF \E pr \in P : pr[1] = IdxOf(a,t) THEN 1 ELSE 0)
                 ELSE (IF \E pr \in P : pr[2] = IdxOf(b,t) THEN 1 ELSE 0)
@@ -120,19 +133,18 @@ SyncDef(a, b, ts, te, mtau, m) ==
    IN [x |-> <<ts>> \o T \o <<te>>,
        y |-> Frame([k \in 1..Len(T) |-> cv(T[k])], 1),
        mp |-> Frame([k \in 1..Len(T) |-> mv(T[k])], 1)]
+SyncDef(a, b, ts, te, mtau, m) == SyncDefP(a, b, ts, te, Coinc(a, b, ts, te, mtau, m))
 \* per-spike coincidence indicator of train a with respect to b (used by the filter)
-SingleDef(a, b, ts, te, mtau, m) ==
-   LET P == Coinc(a, b, ts, te, mtau, m) IN
-   [i \in 1..Len(a) |-> IF \E pr \in P : pr[1] = i THEN 1 ELSE 0]
+SingleDefP(a, P) == [i \in 1..Len(a) |-> IF \E pr \in P : pr[1] = i THEN 1 ELSE 0]
+SingleDef(a, b, ts, te, mtau, m) == SingleDefP(a, Coinc(a, b, ts, te, mtau, m))
 
 (***************************************************************************)
 (* C04  spike-train order and directionality                               *)
 (***************************************************************************)
 \* sign of a coincident pair: +1 if the first train's spike comes first, -1 if second, 0 if simultaneous
 PairSign(a, b, pr) == IF a[pr[1]] < b[pr[2]] THEN 1 ELSE IF a[pr[1]] > b[pr[2]] THEN -1 ELSE 0
-OrderDef(a, b, ts, te, mtau, m) ==
-   LET P == Coinc(a, b, ts, te, mtau, m)
-       T == EventTimes(a, b)
+OrderDefP(a, b, ts, te, P) ==
+   LET T == EventTimes(a, b)
        sgA(i) == IF \E pr \in P : pr[1] = i THEN PairSign(a, b, CHOOSE pr \in P : pr[1] = i) ELSE 0
        sgB(j) == IF \E pr \in P : pr[2] = j THEN PairSign(a, b, CHOOSE pr \in P : pr[2] = j) ELSE 0
        cv(t) == IF t \in SpikesIn(a) /\ t \in SpikesIn(b) THEN 0
@@ -141,12 +153,13 @@ OrderDef(a, b, ts, te, mtau, m) ==
    IN [x |-> <<ts>> \o T \o <<te>>,
        y |-> Frame([k \in 1..Len(T) |-> cv(T[k])], 1),
        mp |-> Frame([k \in 1..Len(T) |-> mv(T[k])], 1)]
+OrderDef(a, b, ts, te, mtau, m) == OrderDefP(a, b, ts, te, Coinc(a, b, ts, te, mtau, m))
 \* directionality values: +1 for a spike that leads its partner, -1 for one that follows
-DirDef(a, b, ts, te, mtau, m) ==
-   LET P == Coinc(a, b, ts, te, mtau, m)
-       sgA(i) == IF \E pr \in P : pr[1] = i THEN PairSign(a, b, CHOOSE pr \in P : pr[1] = i) ELSE 0
+DirDefP(a, b, P) ==
+   LET sgA(i) == IF \E pr \in P : pr[1] = i THEN PairSign(a, b, CHOOSE pr \in P : pr[1] = i) ELSE 0
        sgB(j) == IF \E pr \in P : pr[2] = j THEN PairSign(a, b, CHOOSE pr \in P : pr[2] = j) ELSE 0
    IN [d1 |-> [i \in 1..Len(a) |-> sgA(i)], d2 |-> [j \in 1..Len(b) |-> -sgB(j)]]
+DirDef(a, b, ts, te, mtau, m) == DirDefP(a, b, Coinc(a, b, ts, te, mtau, m))
 RECURSIVE ISum(_)
 ISum(s) == IF Len(s) = 0 THEN 0 ELSE s[1] + ISum(Tail(s))
 \* one-to-one: no spike takes part in two coincidences
